@@ -1,3 +1,5 @@
 import PydapModel.Generated.Tables
+import PydapModel.IterData
 import PydapModel.Sexp
 import PydapModel.Slice
+import PydapModel.TableVal
